@@ -38,3 +38,29 @@ def rand_frame(rng, maxpayload=64, own=None):
     n = rng.choice([0, 1, 2, 3, rng.randint(0, maxpayload), rng.randint(0, maxpayload)])
     return mk(kind, salted_payload(rng, n), rcpt, sender, rng.choice([48, rng.randrange(256)]),
               rng.choice([5, rng.randrange(256)]), rng.choice([0x16, 0x16, 0x16, rng.randrange(256)]))
+
+
+def runt(rng, total):
+    """header-shaped run of exactly `total` bytes (7 <= total) whose LE16 length field says
+    `total` and whose byte total-2 is the XOR of everything before it -- i.e. what a frame of
+    that length would look like if the length were legal.  For total < 10 the fields overlap
+    (kind/checksum/end share bytes with the header); used to probe the length bounds."""
+    rcpt = rng.choice([86, 0, 86, 0, 1])
+    sender = rng.choice(DEVICES)
+    b = bytearray([0x68, total & 0xFF, (total >> 8) & 0xFF, rcpt, sender, rng.randrange(256), rng.randrange(256)])
+    while len(b) < total:
+        b.append(rng.choice(FRAME_TYPES) if len(b) == 7 else rng.randrange(256))
+    b = b[:max(total, 7)]
+    if total >= 9:
+        # make byte total-2 the XOR of all bytes before it
+        b[total - 2] = xor(b[:total - 2])
+        if total == 9:
+            # kind byte and checksum byte coincide: steer it to a known frame type via the version byte
+            want = rng.choice(FRAME_TYPES)
+            b[6] ^= b[7] ^ want
+            b[7] = xor(b[:7])
+    elif total == 8:
+        b[6] = xor(b[:6])
+    elif total == 7:
+        b[5] = xor(b[:5])
+    return bytes(b)
